@@ -745,7 +745,14 @@ class Interp:
             fr.loop_entry = {}
         fr.loop_entry[ordinal] = (snap, ctx.snapshot_heap())
         self.check_inv(spec, ordinal, 'init', fr, ex)
+        heap_before_havoc = dict(ctx.heap)
         self.havoc_loop_state(st, fr, spec)
+        if not hasattr(fr, 'loop_havocked'):
+            fr.loop_havocked = {}
+        fr.loop_havocked[ordinal] = {f for f, a in ctx.heap.items() if heap_before_havoc.get(f) is None or not a.eq(heap_before_havoc[f])}
+        if not hasattr(fr, 'loop_alloc'):
+            fr.loop_alloc = {}
+        fr.loop_alloc[ordinal] = ctx.alloc          # objects allocated from here on are the iteration's own
         ghosts = {}
         for g, ty in spec.ghosts.items():
             v = ty.fresh(ctx, 'ghost!' + g)
@@ -757,6 +764,16 @@ class Interp:
     def _loop_after_body(self, st, fr, spec, ordinal, ghosts, extra_now, extra_next, pre_locals, pre_heap, mark):
         from .contract import ClauseEnv
         ctx = self.ctx
+        # fail closed: whatever this iteration wrote to the heap (directly, through inlined callees or through the
+        # modifies-havoc of a callee's contract) must have been havocked at the loop head, or the invariant would be
+        # assumed for a state in which that field still has its pre-loop value
+        hav = getattr(fr, 'loop_havocked', {}).get(ordinal, set())
+        missed = sorted(f for f, a in ctx.heap.items()
+                        if f not in hav and (pre_heap.get(f) is None or not a.eq(pre_heap[f]))
+                        and not self._writes_only_new_objects(pre_heap.get(f), a, getattr(fr, 'loop_alloc', {}).get(ordinal, 0)))
+        if missed:
+            raise Unsupported('loop %d changes heap field(s) %s that were not havocked at its head; add them to havoc_fields of the '
+                              'loop spec' % (ordinal, ', '.join(missed)), st)
         ex = dict(extra_now)
         ex.update(ghosts)
         ex['pre'] = ClauseEnv(self, fr, dict(ghosts), heap=pre_heap, entry=getattr(self, 'entry_args', {}),
@@ -861,6 +878,25 @@ class Interp:
         except ContinueSig:
             pass
         self._loop_after_body(st, fr, spec, ordinal, ghosts, {}, {}, pre_locals, pre_heap, mark)
+
+    def _writes_only_new_objects(self, old, new, alloc_at_head=0):
+        """is `new` = old with stores at references allocated on this path only (objects created by the iteration itself
+        do not exist in the state the invariant is assumed for)?"""
+        cur = new
+        base = type(self.ctx).BASE + alloc_at_head
+        for _ in range(64):
+            if old is not None and cur.eq(old):
+                return True
+            if z3.is_app(cur) and cur.decl().kind() == z3.Z3_OP_STORE:
+                r = simp(cur.arg(1))
+                if z3.is_int_value(r) and r.as_long() >= base:
+                    cur = cur.arg(0)
+                    continue
+                return False
+            break
+        if old is None and z3.is_const(cur) and cur.decl().name().startswith('heap0!'):
+            return True
+        return False
 
     def _ghost_terms(self, extra):
         out = {}
